@@ -769,8 +769,15 @@ impl Model<Rust> {
             }
 
             AsnType::SequenceOf(asn, size) => {
+                // an inline element type gets its own definition which needs a name of its own
+                let element_name = format!("{}Element", name);
                 let inner = RustType::Vec(
-                    Box::new(Self::definition_type_to_rust_type(name, asn, tag, ctxt)),
+                    Box::new(Self::definition_type_to_rust_type(
+                        &element_name,
+                        asn,
+                        tag,
+                        ctxt,
+                    )),
                     size.clone(),
                     EncodingOrdering::Keep,
                 );
@@ -778,8 +785,15 @@ impl Model<Rust> {
             }
 
             AsnType::SetOf(asn, size) => {
+                // an inline element type gets its own definition which needs a name of its own
+                let element_name = format!("{}Element", name);
                 let inner = RustType::Vec(
-                    Box::new(Self::definition_type_to_rust_type(name, asn, tag, ctxt)),
+                    Box::new(Self::definition_type_to_rust_type(
+                        &element_name,
+                        asn,
+                        tag,
+                        ctxt,
+                    )),
                     size.clone(),
                     EncodingOrdering::Sort,
                 );
